@@ -229,11 +229,26 @@ func vDoneOf(p context.Context) chan struct{} {
 // ---------------------------------------------------------------------------
 // time
 
+// vTimerBudget bounds the number of time.After timers that may fire on one path (an
+// unreachable peer makes reconnect retry forever otherwise); a timer beyond the budget never
+// fires. The bound is part of every full-stack check's stated bounds.
+var (
+	vTimerBudget = 2
+	vTimersFired = 0
+)
+
 //verif:stub time.After
 func vstubTimeAfter(d time.Duration) <-chan time.Time {
 	ch := make(chan time.Time, 1)
 	go func() {
 		<-vEnvTick()
+		vAtomic(1, &vTimersFired)
+		if vTimersFired >= vTimerBudget {
+			vAtomicEnd()
+			select {} // budget exhausted: never fires
+		}
+		vTimersFired++
+		vAtomicEnd()
 		ch <- time.Time{}
 	}()
 	return ch
